@@ -330,6 +330,9 @@ class Interp(MiniEval):
                             break
                 if callee is None and e.func.attr == '__setattr__' and isinstance(selfobj, Obj):
                     callee = lambda k_, v_, _o=selfobj: _o.set(k_, v_)      # noqa: E731  (object.__setattr__)
+                if callee is None and e.func.attr == '__init__' and isinstance(selfobj, Obj):
+                    # the initialiser of a base class outside the package (object, Exception): records its arguments
+                    callee = lambda *a_, _o=selfobj, **k_: _o.set('__base_init_args__', tuple(a_))      # noqa: E731
                 if callee is None:
                     raise Unsupported(f'super().{e.func.attr}')
             else:
